@@ -262,7 +262,7 @@ func RunItemFlow(cfg *ItemFlowConfig, fn *ssa.Function) *ItemFlowResult {
 		}
 		return nil
 	}
-	fl := &Flow{P: p}
+	fl := &Flow{P: p, TrackBoolReturns: true}
 	fl.Instr = func(fr *Frame, st string, in ssa.Instruction) []string {
 		if s := byInstr[in]; s != nil {
 			if strings.HasPrefix(st, "have:") || strings.HasPrefix(st, "got:") {
@@ -315,6 +315,9 @@ func RunItemFlow(cfg *ItemFlowConfig, fn *ssa.Function) *ItemFlowResult {
 		// comma-ok test
 		if iff, ok := from.Instrs[len(from.Instrs)-1].(*ssa.If); ok && strings.HasPrefix(st, "got:") {
 			base, neg := condOf(iff.Cond)
+			if r, _ := fr.Resolve(base); r != nil {
+				base = r // the comma-ok result may have been handed to a helper as an argument
+			}
 			if s := okOf[base]; s != nil && "got:"+s.id == st {
 				if (succ == 0) != neg {
 					return []string{"have:" + s.id}
